@@ -301,6 +301,9 @@ func Lock(m mutexLike, site string) {
 		}
 		yieldEv(evBlocked, a)
 	}
+	// a second scheduling point with the lock held: the others may now run into the held lock (and see a TryLock
+	// fail, or queue up behind it), as they do when the holder is preempted inside its critical section
+	yieldEv(evYield, a)
 }
 
 // Unlock replaces m.Unlock().
@@ -326,6 +329,7 @@ func RLock(m rwMutexLike, site string) {
 		}
 		yieldEv(evBlocked, a)
 	}
+	yieldEv(evYield, a) // with the read lock held: other readers may overlap, writers queue up
 }
 
 // RUnlock replaces m.RUnlock().
